@@ -85,6 +85,12 @@ Verdict(e) ==
                                IF "radix" \in DOMAIN e THEN e.radix ELSE 10,
                                IF "utf8" \in DOMAIN e THEN e.utf8 ELSE TRUE, e.r)
     [] op = "fmt" -> FormatEventOK(e, IF "N" \in DOMAIN e THEN Arg(e.a) ELSE DZero, WArg(e.a), cfg)
+    [] op = "from_float" -> FromFloatOK(ZOf(e.bits).m, e.w, e.r)
+    [] op = "to_float" -> ToFloatOK(Arg(e.a), e.r)
+    [] op = "float_roundtrip" -> FloatRoundTripOK(ZOf(e.bits).m, e.w, e.r)
+    [] op = "to_int" -> ToIntOK(e.form, Arg(e.a), e.r)
+    [] op = "is_integer" -> IsIntegerOK(Arg(e.a), e.r)
+    [] op = "from_int" -> FromIntOK(ZOf(e.v), e.r)
     [] op = "exp" -> ExpOK(Arg(e.a), cfg.precision, e.r)
     [] op = "sqrt" -> SqrtOK(IF e.form \in {"default", "ctx", "dref_ctx"} THEN "some" ELSE IF e.form = "dref_abs" THEN "abs" ELSE "copysign",
                              Arg(e.a), PrecOf(e), ModeOf(e), e.r)
